@@ -126,7 +126,7 @@ fire("C03", B, "                        and n_instructions != _instrsize(new_arg
 fire("C03", B, "            n_args = instruction._n_args_override or _instrsize(arg_value)\n            # Duplicate", "            n_args = _instrsize(arg_value)\n            # Duplicate")
 fire("C03", B, "    constants = FromArgs[ConstantValue](_hash_fn=constant_key)", "    constants = FromArgs[ConstantValue]()")
 fire("C03", B, "        if sorted(self._i_to_arg) != list(range(len(self._i_to_arg))):", "        if self._i_to_arg and max(self._i_to_arg) < len(self._i_to_arg) - 1:")
-fire("C03", B, "            assert self._hash_fn(self._i_to_arg[i]) == self._hash_fn(\n                arg\n            ), f\"Two different args at index {i}\"", "            assert self._i_to_arg[i] == arg", "the original defect")
+fire("C03", B, "            if self._hash_fn(self._i_to_arg[i]) != self._hash_fn(arg):", "            if self._i_to_arg[i] != arg:", "the original defect")
 silent(["C03", "C06", "C09"], B, "        if sorted(self._i_to_arg) != list(range(len(self._i_to_arg))):", "        if set(self._i_to_arg) != set(range(len(self._i_to_arg))):", "equivalent guard")
 silent(["C03"], B, "        if sorted(self._i_to_arg) != list(range(len(self._i_to_arg))):", "        if self._i_to_arg and max(self._i_to_arg) != len(self._i_to_arg) - 1:", "equivalent guard (keys are distinct)")
 silent(["C03"], B, "return 1 if arg <= 0xFF else 2 if arg <= 0xFFFF else 3 if arg <= 0xFFFFFF else 4", "return 1 if arg < 0x100 else 2 if arg < 0x10000 else 3 if arg < 0x1000000 else 4", "same thresholds")
@@ -238,3 +238,5 @@ fire("C12", "code_data/_constants.py", "    if isinstance(value, tuple):\n      
 fire("C16", CLI, "        code = compile(file.read_bytes(), str(file), \"exec\")", "        code = compile(file.read_text(), str(file), \"exec\")", "the original defect: file decoded before compiling (R16.6)")
 fire("C07", J, "        return Name(**{**value, \"name\": string_from_json(value[\"name\"])})", "        return Name(**value)", "the original defect: tagged name stored as a dict (R07.2)")
 fire("C08", "code_data/_constants.py", "        return frozenset(Counter(map(constant_key, value)).items())", "        return frozenset(map(constant_key, value))", "the original defect: multiplicity of equal keys lost (R08.4)")
+fire("C11", C, "        if args:\n            raise AssertionError(\"if this isn't a function, it shouldn't have args\")", "        assert not args, \"if this isn't a function, it shouldn't have args\"", "the original defect: guard vanishes under -O (R11.A)")
+fire("C03", B, "            if self._hash_fn(self._i_to_arg[i]) != self._hash_fn(arg):\n                raise AssertionError(f\"Two different args at index {i}\")", "            assert self._hash_fn(self._i_to_arg[i]) == self._hash_fn(arg), f\"Two different args at index {i}\"", "the original defect: collision guard vanishes under -O (R03.G)")
